@@ -91,6 +91,7 @@ _Val.declare('vflt', ('fval', Fl))
 _Val.declare('vbyt', ('bval', z3.StringSort()))
 _Val.declare('vtxt', ('tval', z3.StringSort()))
 _Val.declare('vbool', ('oval', z3.BoolSort()))
+_Val.declare('vref', ('rval', z3.IntSort()))        # identity of an object / list / dict held in a dynamically typed slot
 Val = _Val.create()
 
 _tuple_sorts = {}
